@@ -92,9 +92,10 @@ def configs(tier):
         cs = [
             # control requests only: whole transfers in every order / transaction by transaction with abandoned transfers,
             # lost ACKs, early status stages and SOFs
-            dict(name="ctl-xfer-all", mps=64, gap=1, pace=1, gran="xfer", reqs=ALL, depth=NOLIMIT),
-            dict(name="ctl-txn-enum", mps=64, gap=1, pace=1, gran="txn", reqs=ENUM, abandon=1, lost=1, early=1, sof=1, depth=NOLIMIT),
-            dict(name="ctl-txn-class", mps=8, gap=3, pace=2, gran="txn", reqs=CLASS + ["SA33", "SC1", "GDC255"], abandon=1, lost=1, early=1, sof=1, depth=NOLIMIT),
+            dict(name="ctl-xfer-enum", mps=64, gap=1, pace=1, gran="xfer", reqs=ENUM, depth=NOLIMIT),
+            dict(name="ctl-xfer-class", mps=8, gap=3, pace=2, gran="xfer", reqs=CLASS + ["GDD18", "GDC255", "SA33", "SC1"], depth=NOLIMIT),
+            dict(name="ctl-txn-enum", mps=64, gap=1, pace=1, gran="txn", reqs=["GDD18", "GDC255", "GDS2", "GDQ", "SA33", "SC1"], abandon=1, lost=1, early=1, sof=1, depth=NOLIMIT),
+            dict(name="ctl-txn-class", mps=8, gap=2, pace=1, gran="txn", reqs=["SLC", "SCLS", "GLC", "SEC", "C20IN", "VIN", "VOUT", "SC1"], abandon=1, lost=1, sof=1, depth=NOLIMIT),
             # control requests and data traffic
             dict(name="class-xfer-data", mps=2, gap=1, pace=1, gran="xfer", reqs=["SC1", "SLC", "SCLS", "GLC", "SEC", "C20IN", "VIN", "VOUT", "GDC255"], depth=4,
                  data=dict(sizes=[1, 2], push=[1], inmodes=["ack"])),
@@ -107,7 +108,7 @@ def configs(tier):
                  data=dict(sizes=[0, 1, 2], push=[0, 1], inmodes=["ack", "lost", "noack"], feed=2, rep=1, in3=1)),
             dict(name="data-m3", mps=3, gap=2, pace=1, gran="xfer", reqs=[], depth=5, pre=["SC1"],
                  data=dict(sizes=[1, 2, 3], push=[0, 1], inmodes=["ack", "lost"], feed=3, sof=1)),
-            dict(name="data-m4-pace", mps=4, gap=1, pace=2, gran="xfer", reqs=["SLC"], depth=5, pre=["SA33", "SC1"],
+            dict(name="data-m4-pace", mps=4, gap=1, pace=2, gran="xfer", reqs=["SLC"], depth=4, pre=["SA33", "SC1"],
                  data=dict(sizes=[0, 3, 4], push=[0, 1], burst=4, inmodes=["ack", "lost"])),
             dict(name="data-m64", mps=64, gap=1, pace=1, gran="xfer", reqs=["SLC"], depth=4, pre=["SA33", "SC1"],
                  data=dict(sizes=[0, 1, 63, 64], push=[1], burst=64, inmodes=["ack", "lost"])),
@@ -118,16 +119,16 @@ def configs(tier):
         cs = [
             dict(name="ctl-xfer-all", mps=64, gap=1, pace=1, gran="xfer", reqs=ALL, depth=NOLIMIT),
             dict(name="ctl-xfer-all-b", mps=8, gap=4, pace=2, gran="xfer", reqs=ALL, depth=NOLIMIT),
-            dict(name="ctl-txn-all", mps=64, gap=1, pace=1, gran="txn", reqs=ALL, abandon=1, lost=1, early=1, sof=1, depth=NOLIMIT),
-            dict(name="ctl-txn-all-b", mps=4, gap=3, pace=2, gran="txn", reqs=ALL, abandon=1, lost=1, early=1, sof=1, depth=NOLIMIT),
-            dict(name="ctl-txn-all-c", mps=2, gap=6, pace=1, gran="txn", reqs=ALL, abandon=1, lost=1, early=1, depth=NOLIMIT),
+            dict(name="ctl-txn-enum", mps=64, gap=1, pace=1, gran="txn", reqs=ENUM, abandon=1, lost=1, early=1, sof=1, depth=NOLIMIT),
+            dict(name="ctl-txn-class", mps=8, gap=3, pace=2, gran="txn", reqs=CLASS + ["SA33", "SC1", "GDC255"], abandon=1, lost=1, early=1, sof=1, depth=NOLIMIT),
+            dict(name="ctl-txn-mix", mps=2, gap=6, pace=1, gran="txn", reqs=["GDD64", "GDC9", "GDS0", "GDSEE", "SA35", "SC1", "SC0", "SLC", "SBRK", "GLC", "VND0", "VOUT"], abandon=1, lost=1, early=1, depth=NOLIMIT),
             dict(name="all-xfer-data", mps=4, gap=1, pace=1, gran="xfer", reqs=["GDD18", "GDC255", "SA33", "SC1", "SLC", "SCLS", "GLC", "SEC", "C20IN", "VND0", "VIN", "VOUT"], depth=5,
                  data=dict(sizes=[1, 4], push=[1], inmodes=["ack"])),
             dict(name="class-xfer-data", mps=2, gap=2, pace=1, gran="xfer", reqs=["SC1", "SLC", "SCLS", "GLC", "SEC", "VND0", "VIN", "VOUT"], depth=6,
                  data=dict(sizes=[1, 2], push=[0, 1], inmodes=["ack", "lost"])),
-            dict(name="slc-txn-data", mps=2, gap=1, pace=1, gran="txn", reqs=["SLC", "GLC", "VOUT"], lost=1, depth=7, pre=["SA33", "SC1"],
+            dict(name="slc-txn-data", mps=2, gap=1, pace=1, gran="txn", reqs=["SLC", "GLC", "VOUT"], lost=1, depth=6, pre=["SA33", "SC1"],
                  data=dict(sizes=[1, 2], push=[0, 1], inmodes=["ack", "lost"])),
-            dict(name="enum-txn-data", mps=3, gap=1, pace=1, gran="txn", reqs=["GDC255", "SC1", "VOUT"], abandon=1, depth=7, pre=["SA33", "SC1"],
+            dict(name="enum-txn-data", mps=3, gap=1, pace=1, gran="txn", reqs=["GDC255", "SC1", "VOUT"], abandon=1, depth=6, pre=["SA33", "SC1"],
                  data=dict(sizes=[2, 3], push=[1], inmodes=["ack"], sof=1)),
             dict(name="data-m2", mps=2, gap=1, pace=1, gran="xfer", reqs=["SLC"], depth=7, pre=["SA33", "SC1"],
                  data=dict(sizes=[0, 1, 2], push=[0, 1], inmodes=["ack", "lost", "noack"], feed=2, rep=1, in3=1)),
@@ -135,11 +136,11 @@ def configs(tier):
                  data=dict(sizes=[0, 1, 2], push=[0, 1], inmodes=["ack", "lost"], feed=3, rep=1, sof=1)),
             dict(name="data-m3", mps=3, gap=2, pace=1, gran="xfer", reqs=[], depth=7, pre=["SC1"],
                  data=dict(sizes=[1, 2, 3], push=[0, 1], inmodes=["ack", "lost", "noack"], feed=3, sof=1)),
-            dict(name="data-m4-pace", mps=4, gap=1, pace=2, gran="xfer", reqs=["SLC"], depth=7, pre=["SA33", "SC1"],
+            dict(name="data-m4-pace", mps=4, gap=1, pace=2, gran="xfer", reqs=["SLC"], depth=6, pre=["SA33", "SC1"],
                  data=dict(sizes=[0, 1, 3, 4], push=[0, 1], burst=4, inmodes=["ack", "lost"], rep=1)),
             dict(name="data-m8", mps=8, gap=1, pace=1, gran="xfer", reqs=[], depth=6, pre=["SA35", "SC1"],
                  data=dict(sizes=[1, 7, 8], push=[0, 1], burst=8, inmodes=["ack", "lost"], feed=9)),
-            dict(name="data-m64", mps=64, gap=1, pace=1, gran="xfer", reqs=["SLC"], depth=6, pre=["SA33", "SC1"],
+            dict(name="data-m64", mps=64, gap=1, pace=1, gran="xfer", reqs=["SLC"], depth=5, pre=["SA33", "SC1"],
                  data=dict(sizes=[0, 1, 63, 64], push=[0, 1], burst=64, inmodes=["ack", "lost"], rep=1)),
             dict(name="reconf", mps=2, gap=1, pace=1, gran="xfer", reqs=["SC1", "SC0", "SA33"], depth=8, pre=["SC1"],
                  data=dict(sizes=[1, 2], push=[1], inmodes=["ack", "lost"])),
